@@ -19,6 +19,9 @@ text extractor and the CMap parser, restricted to crate-local bodies.
     iterator) are simulated at end of input — count 0, empty slice, emptied buffer — with
     path-sensitive constant propagation: no back edge of the loop may remain reachable from the read
     (otherwise a truncated file makes the loop spin forever).
+    Loops that run while a counter is below a declared count and draw their data from an entropy decoder (MQ / Huffman
+    integers — a source that never reports end of input) advance that counter, pass a bound on it or on another
+    loop-carried counter, or consume bounded input on every path back to their header.
  R5 decompression caps: no unbounded inflate anywhere; the limited reader's growth is dominated by
     its limit test (shared with C08-R5).
  R6 explicit panic sites (`unwrap`, `expect`, `panic!`, `unreachable!`, `assert!`) in scope are
@@ -200,6 +203,9 @@ def run(ctx):
                                                         "zero-byte read sets eof and leaves the loop (path-insensitive artefact)",
     })
     ctx.floor("R4", "scanner loops", n4, 15)
+    # R4c decoding loops fed by an entropy decoder make progress on their own
+    n4c = CY.check_entropy_loops(ctx, "R4", scope)
+    ctx.floor("R4", "entropy-driven counter loops", n4c, 4)
     # R4b end-of-input tests of reader-driven loops
     n4b = CY.check_eof_tests(ctx, "R4", scope, allow=EOF_ALLOW)
     ctx.floor("R4", "reader-driven loops", n4b, 6)
